@@ -12,6 +12,14 @@ pub struct Work {
     pub tree: Tree,
     pub variant: u8,
     pub ops: Vec<HOp>,
+    /// size knob: before operation `at`, `n` unrelated storable entries ("fill<j>") are added to every front-end, so
+    /// that the tables behind the cache grow past their small-size paths; they are part of the map model like any
+    /// other entry and are looked up again at the end
+    #[serde(default)]
+    pub fill: Option<(usize, usize)>,
+    /// spelling of the ids (hist::id_suffix): plain, long, with a path separator, non-ASCII
+    #[serde(default)]
+    pub id_style: u8,
 }
 
 pub fn gen_ops(g: &mut SplitMix, u: &Universe, n: usize, with_storables: bool) -> Vec<HOp> {
@@ -92,13 +100,33 @@ impl Property for C02 {
     }
     fn generate(&self, g: &mut SplitMix, k: &mut SplitMix, _tier: Tier) -> (Knobs, Value) {
         let knobs = Knobs::draw(k);
-        let u = universe();
+        let id_style = *g.pick(&[0u8, 0, 0, 0, 1, 2, 3, 4]);
+        let u = universe_styled(id_style);
         SELF_INSERT_OK.store(true, std::sync::atomic::Ordering::Relaxed);
         let tree = gen_tree(g, &u, true);
         let n = 1 + g.below(40) as usize;
-        let ops = gen_ops(g, &u, n, true);
+        let mut ops = gen_ops(g, &u, n, true);
         SELF_INSERT_OK.store(false, std::sync::atomic::Ordering::Relaxed);
-        (knobs, serde_json::to_value(Work { tree, variant: g.below(4) as u8, ops }).unwrap())
+        let fill = if g.chance(1, 12) {
+            let n_fill = *g.pick(&[40usize, 120, 300, 449, 513, 700, 1100, 2100]) + g.below(8) as usize;
+            let at = g.below(ops.len() as u64 + 1) as usize;
+            // something that must act on (or must leave alone) a large table afterwards
+            for _ in 0..1 + g.below(3) {
+                let j = g.below(n_fill as u64);
+                let op = match g.below(5) {
+                    0 | 1 => HOp::Clear,
+                    2 => HOp::RemS(SK::TV, format!("fill{j}")),
+                    3 => HOp::TakeS(SK::TV, format!("fill{j}")),
+                    _ => HOp::InsS(SK::TV, format!("fill{j}"), 7_000_000 + j, g.chance(1, 2)),
+                };
+                let pos = at + g.below((ops.len() - at) as u64 + 1) as usize;
+                ops.insert(pos, op);
+            }
+            Some((at, n_fill))
+        } else {
+            None
+        };
+        (knobs, serde_json::to_value(Work { tree, variant: g.below(4) as u8, ops, fill, id_style }).unwrap())
     }
     fn execute(&self, case: &Case) -> Outcome {
         let w: Work = serde_json::from_value(case.work.clone()).unwrap();
@@ -114,6 +142,19 @@ impl Property for C02 {
         let w: Work = serde_json::from_value(work.clone()).unwrap();
         let mut out = vec![];
         // drop the tail, then single operations, then files
+        if let Some((at, n)) = w.fill {
+            let mut x = w.clone();
+            x.fill = None;
+            out.push(x);
+            if n > 1 {
+                let mut x = w.clone();
+                x.fill = Some((at, n / 2));
+                out.push(x);
+                let mut x = w.clone();
+                x.fill = Some((at, n - 1));
+                out.push(x);
+            }
+        }
         if w.ops.len() > 1 {
             let mut x = w.clone();
             x.ops.truncate(w.ops.len() / 2);
@@ -134,10 +175,28 @@ impl Property for C02 {
 }
 
 fn scenario(w: Work) {
-    let u = universe();
+    let u = universe_styled(w.id_style);
+    if w.id_style != 0 {
+        detsim::count("reach.unusual_id_spelling");
+    }
     let kinds = [FrontKind::Hot, FrontKind::Cold, FrontKind::Local];
     let mut worlds: Vec<World> = kinds.iter().map(|k| World::new(*k, w.tree.clone(), w.variant)).collect();
+    let fill_op = |world: &mut World, op: &HOp, what: &str| {
+        let exp = world.expected(op);
+        let got = if is_mut(op) { world.real_mut(op) } else { world.real(op) };
+        detsim::check(got == exp, "C02/result-differs-from-map-model", || format!("{what}: {op:?} on front-end {:?}: returned {got:?}, the map model says {exp:?}", world.kind));
+    };
     for (i, op) in w.ops.iter().enumerate() {
+        if let Some((at, n)) = w.fill {
+            if at == i {
+                for world in worlds.iter_mut() {
+                    for j in 0..n {
+                        fill_op(world, &HOp::InsS(SK::TV, format!("fill{j}"), j as u64, j % 2 == 0), "filling");
+                    }
+                }
+                detsim::count("reach.large_table");
+            }
+        }
         for (wi, world) in worlds.iter_mut().enumerate() {
             if is_edit(op) {
                 world.edit(op);
@@ -164,13 +223,37 @@ fn scenario(w: Work) {
             if i % 4 == 3 || matches!(op, HOp::Clear) || i + 1 == w.ops.len() {
                 let mut ids = u.ids.clone();
                 ids.extend(u.dirs.iter().cloned());
+                // filler entries named by an operation are compared here, the others by the look-ups at the end
+                let named: Vec<String> = w.ops.iter().filter_map(|o| match o {
+                    HOp::InsS(_, id, ..) | HOp::RemS(_, id) | HOp::TakeS(_, id) if id.starts_with("fill") => Some(id.clone()),
+                    _ => None,
+                }).collect();
+                ids.extend(named.iter().cloned());
                 let real: std::collections::BTreeMap<String, String> = world.real_contents(&ids).into_iter().map(|(k, v)| (k, v.0)).collect();
-                let model = world.model_contents();
+                let mut model = world.model_contents();
+                model.retain(|k, _| !k.contains(" fill") || named.iter().any(|m| k.ends_with(&format!(" {m}"))));
                 detsim::check(real == model, "C02/contents-differ-from-map-model", || {
                     let only_real: Vec<_> = real.iter().filter(|(k, v)| model.get(*k) != Some(*v)).collect();
                     let only_model: Vec<_> = model.iter().filter(|(k, v)| real.get(*k) != Some(*v)).collect();
                     format!("after op {i} {op:?} on {:?}: cache holds {only_real:?} where the model holds {only_model:?}", world.kind)
                 });
+            }
+        }
+    }
+    if let Some((at, n)) = w.fill {
+        if at <= w.ops.len() {
+            for world in worlds.iter_mut() {
+                if at == w.ops.len() {
+                    for j in 0..n {
+                        fill_op(world, &HOp::InsS(SK::TV, format!("fill{j}"), j as u64, j % 2 == 0), "filling");
+                    }
+                }
+                for j in 0..n {
+                    fill_op(world, &HOp::HasS(SK::TV, format!("fill{j}"), j % 2 == 1), "final look-up of a filler entry");
+                    if j % 16 == 0 {
+                        fill_op(world, &HOp::GetS(SK::TV, format!("fill{j}"), false), "final look-up of a filler entry");
+                    }
+                }
             }
         }
     }
